@@ -687,12 +687,15 @@ where
         hash_map.clear();
         
         // Reset all nodes and add to free list
+        // Every slot goes back to the free list, not only the ones that were in use:
+        // slots that were never used or were released by remove()/eviction are already
+        // invalid but must stay allocatable, otherwise the map loses capacity for good.
         free_nodes.clear();
         for (i, node) in nodes.iter_mut().enumerate() {
             if node.is_valid {
                 node.reset();
-                free_nodes.push(i as u32);
             }
+            free_nodes.push(i as u32);
         }
         
         // Reset LRU list
